@@ -40,4 +40,7 @@ def h_lock_client_GetCurrentStatus : Nat := 0x639b1bec2f33bb20
 /-- hash of the normalised skeleton of SockAddr (internal/dag/dag.go) -/
 def h_lock_dag_SockAddr : Nat := 0x832fbcd7c98247ae
 
+/-- hash of the normalised skeleton of dryRun (internal/agent/agent.go) -/
+def h_lock_agent_dryRun : Nat := 0x8414dd1c30f3f649
+
 end BdModel.Canon.Lock
